@@ -135,7 +135,7 @@ def lake_build(targets):
     return rc == 0, out
 
 
-THEOREM_RE = re.compile(r"^\s*(?:protected\s+|private\s+)?theorem\s+([A-Za-z_][A-Za-z0-9_'.]*)", re.M)
+THEOREM_RE = re.compile(r"^(?:protected\s+)?theorem\s+([A-Za-z_][A-Za-z0-9_'.]*)", re.M)
 NAMESPACE_RE = re.compile(r"^namespace\s+(\S+)", re.M)
 
 
